@@ -58,3 +58,12 @@ theorem C06_null_slot_model (IO : Api.SymIO σ) (s : Api.Session σ) (p : Api.Pa
   have hr : (decide (p.k ≤ esi) && decide (esi < p.n)) = true := by simp [h1, h2]
   simp only [hr, if_true]
   (repeat' split) <;> simp [TMap.get_set_same]
+
+/-- **The Reed-Solomon encoder function of the model is the generator-matrix product** (one field position; both codecs over GF(2^8)
+and the GF(2^4) codec, with the operations the executable model uses) -/
+theorem C06_rs_encode_function (k : ℕ) (r : ℕ) :
+    (∀ src : List GF8.GF256, src.length = k →
+      RS.encode RS.fld8x GF8.modelx.fieldOps k src r = GF8.modelx.cwModel k (fun i => src.getD i 0) r) ∧
+    (∀ src : List GF4.GF16, src.length = k →
+      RS.encode RS.fld4x GF4.modelx.fieldOps k src r = GF4.modelx.cwModel k (fun i => src.getD i 0) r) :=
+  ⟨fun src hs => GF8.modelx.encode_eq k src hs r, fun src hs => GF4.modelx.encode_eq k src hs r⟩
